@@ -393,6 +393,7 @@ pub fn run_corrupt(prop: &PropDef, spec: &RunSpec, workdir: &Path, index: u64) -
             crate::runner::install_panic_hook();
             // allocation-failure aborts print to stderr: keep the check's output clean
             unsafe {
+                libc::prctl(libc::PR_SET_PDEATHSIG, libc::SIGKILL);
                 let devnull = libc::open(c"/dev/null".as_ptr(), libc::O_WRONLY);
                 if devnull >= 0 {
                     libc::dup2(devnull, 2);
